@@ -87,6 +87,7 @@ func (vc *VC) execCall(x *ssa.Call, c *ssa.CallCommon, st *State, holder ssa.Val
 		recv = &r
 		binds["self"] = r
 		pureKey = key
+		vc.safety("nil", fmt.Sprintf("(not (= %s 0))", r.t), "method call on nil interface value ("+calleeName+")")
 		for i, a := range c.Args {
 			av := mkArg(a)
 			argVals = append(argVals, av)
@@ -160,6 +161,10 @@ func (vc *VC) execCall(x *ssa.Call, c *ssa.CallCommon, st *State, holder ssa.Val
 			binds["owner"] = SVal{t: owner, typ: ownerT, sort: "Int"}
 		}
 		binds["fnval"] = mkArg(c.Value)
+		fv := mkArg(c.Value)
+		recv = &fv
+		pureKey = key
+		vc.safety("nil", fmt.Sprintf("(not (= %s 0))", fv.t), "call of a nil function value ("+calleeName+")")
 		for i, a := range c.Args {
 			av := mkArg(a)
 			argVals = append(argVals, av)
@@ -484,8 +489,10 @@ func (vc *VC) execBuiltin(x *ssa.Call, b *ssa.Builtin, c *ssa.CallCommon, st *St
 				vc.setVal(x, "(s-cap "+v+")")
 			}
 		case *types.Map:
-			_, _, ml, _, _, _, _ := vc.mapTerms(st, t)
+			md, _, ml, ks, _, _, _ := vc.mapTerms(st, t)
 			vc.setVal(x, fmt.Sprintf("(select %s %s)", ml, v))
+			// cardinality: the length is zero exactly when the domain is empty
+			vc.assume(fmt.Sprintf("(forall ((k!l %s)) (! (=> (select (select %s %s) k!l) (> (select %s %s) 0)) :pattern ((select (select %s %s) k!l))))", ks, md, v, ml, v, md, v))
 			vc.assume(fmt.Sprintf("(and (>= %s 0) (<= %s 9223372036854775807))", vc.vals[x], vc.vals[x]))
 		case *types.Basic:
 			vc.setVal(x, "(strlen "+v+")")
@@ -613,8 +620,14 @@ func (vc *VC) execAppend(x *ssa.Call, c *ssa.CallCommon, st *State) {
 	vc.noteWrite(st, hn, "(s-arr "+s+")")
 	vc.setHeap(st, hn, hs, fmt.Sprintf("(ite %s (store %s (s-arr %s) %s) (store %s %s %s))", fits, E, s, inNew, E, r, reNew))
 	vc.setVal(x, fmt.Sprintf("(ite %s (mk-slice (s-arr %s) (s-off %s) %s (s-cap %s)) (mk-slice %s 0 %s %s))", fits, s, s, newLen, s, r, newLen, newCap))
-	if bl, ok := vc.sliceBack["(s-arr "+s+")"]; ok {
-		_ = bl
+	// derived fact (holds in both branches): the result keeps the old elements
+	res := vc.vals[x]
+	vc.assume(fmt.Sprintf("(forall ((k!p Int)) (! (=> (and (<= (s-off %s) k!p) (< k!p (+ (s-off %s) %s))) (= (select (select %s (s-arr %s)) k!p) (select (select %s (s-arr %s)) (+ (s-off %s) (- k!p (s-off %s)))))) :pattern ((select (select %s (s-arr %s)) k!p))))",
+		res, res, ln, vc.heap(st, hn, hs), res, E, s, s, res, vc.heap(st, hn, hs), res))
+	if elems != nil {
+		for j := range elems {
+			vc.assume(fmt.Sprintf("(= (select (select %s (s-arr %s)) (+ (s-off %s) %s %d)) %s)", vc.heap(st, hn, hs), res, res, ln, j, elems[j]))
+		}
 	}
 }
 
@@ -918,7 +931,7 @@ func (vc *VC) tryHint(env *Env, h Hint, reach string) {
 	nl := len(vc.lines)
 	defer func() {
 		if r := recover(); r != nil {
-			if u, ok := r.(unsupported); ok && strings.Contains(u.msg, "unknown name") {
+			if u, ok := r.(unsupported); ok && (strings.Contains(u.msg, "unknown name") || strings.Contains(u.msg, "iterold outside")) {
 				vc.lines = vc.lines[:nl]
 				env.side = nil
 				return
